@@ -694,6 +694,57 @@ def fmt_map(m):
     return ";".join("%s=%s" % (k, " ".join(v)) for k, v in m)
 
 
+def pipe_attrs_of(p):
+    return (float(p.length), float(p.diameter), float(p.roughness), float(p.minor_loss), int(p.status))
+
+
+def props_of(r):
+    return (float(r["length"]), float(r["diameter"]), float(r["roughness"]), float(r["minorloss"]), int(r["status"]))
+
+
+def f2b(x):
+    import struct
+
+    return str(struct.unpack("<Q", struct.pack("<d", x))[0])
+
+
+def b2f(s_):
+    import struct
+
+    return struct.unpack("<d", struct.pack("<Q", int(s_)))[0]
+
+
+def merge_line(kind, a, b):
+    return "merge | %s | %s | %s" % (kind, ",".join([f2b(v) for v in a[:4]] + [str(a[4])]), ",".join([f2b(v) for v in b[:4]] + [str(b[4])]))
+
+
+def merge_check(ctx, records, broken):
+    """real _series_merge_properties / _parallel_merge_properties vs the Lean Float transliteration (driver `merge`)"""
+    if not records:
+        return
+    mo = vlib.lean_run(DRIVER, "\n".join(merge_line(k, a, b) for k, a, b, _ in records) + "\n")
+    if len(mo) != len(records):
+        raise vlib.Infra("MorphDriver returned %d lines for %d merge requests" % (len(mo), len(records)))
+    dev = ctx.cov.setdefault("series_merge_resistance_rel_dev_max", {"code_exponents": 0.0, "simulator_exponents": 0.0})
+    for (k, a, b, r), ml in zip(records, mo):
+        t = ml.split()
+        ctx.count("merge:%s:%s" % (k, "tie" if a[1] == b[1] else "dom0" if a[1] > b[1] else "dom1"))
+        if len(t) != 6 or t[0] != "ok":
+            broken.append(Broken("correspondence", "M9 merge properties", "driver answered %r" % ml[:200]))
+            continue
+        m = (b2f(t[1]), b2f(t[2]), b2f(t[3]), b2f(t[4]), int(t[5]))
+        ok = m[0] == r[0] and m[1] == r[1] and m[3] == r[3] and m[4] == r[4] and (m[2] == r[2] or abs(m[2] - r[2]) <= 1e-13 * abs(r[2]))
+        if not ok:
+            broken.append(Broken("correspondence", "M9 %s merge properties" % ("series" if k == "s" else "parallel"),
+                                 "pipes %s %s\nmodel (length, diameter, roughness, minorloss, status) %s\nimpl  %s" % (a, b, m, r)))
+            continue
+        if k == "s" and min(a[:3] + b[:3]) > 0:
+            for name, (ea, eb) in (("code_exponents", (4.87, 1.85)), ("simulator_exponents", (4.871, 1.852))):
+                res = lambda L, D, C: L / (D ** ea * C ** eb)
+                d = res(r[0], r[1], r[2]) / (res(*a[:3]) + res(*b[:3])) - 1.0
+                dev[name] = max(dev[name], abs(d))
+
+
 class Trace:
     """records remove_link / remove_node / add_pipe on WaterNetworkModel while skeletonize runs (no edit of /repo)"""
 
@@ -701,6 +752,8 @@ class Trace:
         self.cls = wntr.network.model.WaterNetworkModel
         self.ev = []
         self.status = None  # link statuses when the first step starts, i.e. AFTER the hydraulic run of _Skeletonize.__init__
+        self.skel = wntr.morph.skel._Skeletonize
+        self.merges = []  # (kind, pipe0 attrs, pipe1 attrs, props) of every _series/_parallel_merge_properties call
 
     def __enter__(self):
         cls, ev = self.cls, self.ev
@@ -724,10 +777,25 @@ class Trace:
             return o_ap(wn, name, *a, **k)
 
         cls.remove_link, cls.remove_node, cls.add_pipe = remove_link, remove_node, add_pipe
+        self.orig_m = (self.skel._series_merge_properties, self.skel._parallel_merge_properties)
+        o_s, o_p = self.orig_m
+
+        def series(sk, p0, p1):
+            r = o_s(sk, p0, p1)
+            self.merges.append(("s", pipe_attrs_of(p0), pipe_attrs_of(p1), props_of(r)))
+            return r
+
+        def parallel(sk, p0, p1):
+            r = o_p(sk, p0, p1)
+            self.merges.append(("p", pipe_attrs_of(p0), pipe_attrs_of(p1), props_of(r)))
+            return r
+
+        self.skel._series_merge_properties, self.skel._parallel_merge_properties = series, parallel
         return self
 
     def __exit__(self, *a):
         self.cls.remove_link, self.cls.remove_node, self.cls.add_pipe = self.orig
+        self.skel._series_merge_properties, self.skel._parallel_merge_properties = self.orig_m
 
 
 def ops_from_trace(ev, v0, jx):
@@ -786,7 +854,23 @@ def total_expected(wntr, wn):
 class SkelRunner:
     def __init__(self, chk, ctx, wntr):
         self.chk, self.ctx, self.wntr = chk, ctx, wntr
-        self.lines, self.pending = [], []
+        self.lines, self.pending, self.merges = [], [], []
+
+    def random_merges(self, n):
+        """the two property functions called directly on random pipes (equal diameters, extreme ratios)"""
+        import types
+
+        sk = object.__new__(self.wntr.morph.skel._Skeletonize)
+        rng = self.ctx.rng
+        for _ in range(n):
+            ps = []
+            for _ in range(2):
+                ps.append(types.SimpleNamespace(length=rng.choice([1.0, 10.0, 64.0, 100.0, rng.uniform(0.5, 2000)]),
+                                                diameter=rng.choice([0.05, 0.1, 0.15, 0.3, rng.uniform(0.02, 1.5)]),
+                                                roughness=rng.choice([80.0, 100.0, 140.0, rng.uniform(40, 150)]),
+                                                minor_loss=rng.choice([0.0, 0.5, 10.0]), status=rng.choice([0, 1]), name="x"))
+            for k, fn in (("s", sk._series_merge_properties), ("p", sk._parallel_merge_properties)):
+                self.merges.append((k, pipe_attrs_of(ps[0]), pipe_attrs_of(ps[1]), props_of(fn(ps[0], ps[1]))))
 
     def run(self, d, cfg, failures, broken):
         wntr, ctx = self.wntr, self.ctx
@@ -815,6 +899,7 @@ class SkelRunner:
         finally:
             os.chdir(cwd)
         ctx.case(hashlib.sha256(json.dumps([d, cfg], sort_keys=True, default=str).encode()).hexdigest()[:16], bool(tr.ev))
+        self.merges += tr.merges
         v1 = view_skel(w2)
         # `_series/_parallel_merge_properties` read the CURRENT status, which the WNTRSimulator run of __init__ may have changed
         # (a check-valve pipe closed at t=0, a valve gone from Active to Open): the model gets the statuses the steps really saw
@@ -881,6 +966,8 @@ class SkelRunner:
                             map={k: v for k, v in mkeys if len(v) > 1}))
 
     def flush(self, failures, broken):
+        merge_check(self.ctx, self.merges, broken)
+        self.merges = []
         if not self.lines:
             return
         mo = vlib.lean_run(DRIVER, "\n".join(self.lines) + "\n")
@@ -1060,6 +1147,7 @@ class C19(Check):
             d = gen_net(ctx.rng, big=True, hyd=True)
             for _ in range(2):
                 kr.run(d, gen_skel_cfg(ctx.rng, d, thorough), failures, broken)
+        kr.random_merges(100 if ctx.quick else 1000)
         kr.flush(failures, broken)
         ctx.cov["phase_seconds"] = dict(split_impl=round(t0 - ctx.t0, 1), split_driver=round(t1 - t0, 1), hydraulics=round(t2 - t1, 1),
                                         skeletonize=round(time.time() - t2, 1))
